@@ -152,6 +152,8 @@ func runCheck(prop, tier string, seed int64, only string) int {
 	knownHits := 0
 	var vioLines []string
 	var replayed int
+	crossN := 0
+	var crossSolvers []string
 	var eng *Engine
 	var loadT time.Duration
 	for pi := range parts {
@@ -185,6 +187,7 @@ func runCheck(prop, tier string, seed int64, only string) int {
 				}
 				cfg.TimeBudgetS = 3000
 				cfg.SolverTimeoutMs = 60000
+				cfg.CrossCheck = 1500
 			}
 			applyCfg(&cfg, ts.Cfg)
 			cfg.Params = map[string]int64{}
@@ -197,9 +200,25 @@ func runCheck(prop, tier string, seed int64, only string) int {
 				fatal2("harness entry not found: " + rs.Entry)
 			}
 			te := time.Now()
+			if cfg.CrossCheck > 0 {
+				if f, err := os.CreateTemp("", "symgo-cross-*.smt2"); err == nil {
+					crossLog = &crossLogT{f: f, max: cfg.CrossCheck}
+				}
+			}
 			ex, err := Explore(eng, entry, seed)
 			if err != nil {
 				fatal2(err.Error())
+			}
+			if crossLog != nil {
+				crossLog.f.Close()
+				n, names, msg := crossCheck(crossLog.f.Name(), cfg.Logic)
+				os.Remove(crossLog.f.Name())
+				crossLog = nil
+				crossN += n
+				crossSolvers = names
+				if msg != "" {
+					inconclusive = append(inconclusive, rs.Entry+": cross-solver check: "+msg)
+				}
 			}
 			er := &entryResult{Entry: rs.Entry, Ex: ex, Params: cfg.Params, Cfg: cfg, WallS: time.Since(te).Seconds()}
 			results = append(results, er)
@@ -263,7 +282,7 @@ func runCheck(prop, tier string, seed int64, only string) int {
 	}
 	eng.loadTime = loadT
 	wall := time.Since(t0).Seconds()
-	writeEvidence(prop, tier, seed, &spec, eng, results, violations, knownHits, inconclusive, replayed, wall)
+	writeEvidence(prop, tier, seed, &spec, eng, results, violations, knownHits, inconclusive, replayed, wall, crossN, crossSolvers)
 	for _, l := range vioLines {
 		fmt.Println(l)
 	}
@@ -298,7 +317,7 @@ func fmtOutcomes(m map[Outcome]int) string {
 	return strings.Join(parts, ",")
 }
 
-func writeEvidence(prop, tier string, seed int64, spec *Spec, eng *Engine, results []*entryResult, violations, knownHits int, inconclusive []string, replayed int, wall float64) {
+func writeEvidence(prop, tier string, seed int64, spec *Spec, eng *Engine, results []*entryResult, violations, knownHits int, inconclusive []string, replayed int, wall float64, crossN int, crossSolvers []string) {
 	states, transitions, validated := 0, 0, replayed
 	var samples []interface{}
 	fnEnc := map[string]int64{}
@@ -384,6 +403,7 @@ func writeEvidence(prop, tier string, seed int64, spec *Spec, eng *Engine, resul
 			"load_and_ssa_build_s":     round2(eng.loadTime.Seconds()),
 			"outside_the_claim":        spec.Outside, "stubs": spec.Stubs,
 			"inconclusive": inconclusive, "known_findings_seen": knownHits,
+			"cross_solver_check": map[string]interface{}{"queries_replayed": crossN, "solvers": crossSolvers, "note": "the complete command stream of one worker (bounded) re-decided by every listed solver; verdict sequences must agree"},
 			"source": "encoding regenerated from /repo working tree on this run (go/packages + go/ssa, harness injected by overlay)",
 		},
 		"assumptions": spec.Assumptions, "wall_s": round2(wall), "violations": violations,
